@@ -17,7 +17,6 @@ import (
 	"errors"
 	"fmt"
 	"maps"
-	"reflect"
 	"strings"
 
 	"github.com/notaryproject/notation-go/dir"
@@ -99,7 +98,7 @@ func (policyDoc *BlobDocument) Validate() error {
 			}
 
 			// verificationLevel is skip
-			if reflect.DeepEqual(statement.SignatureVerification.VerificationLevel, LevelSkip) {
+			if statement.SignatureVerification.VerificationLevel == LevelSkip.Name {
 				return errors.New("global blob trust policy statement cannot have verification level set to skip")
 			}
 			foundGlobalPolicy = true
